@@ -109,7 +109,20 @@ pub struct RunResult {
     pub cut_nonquiescent: bool,
 }
 
+/// Mirrors the cfg hook `verif_set_weak_hash` so that nested runs restore the previous setting.
+static WEAK_HASH_ON: std::sync::atomic::AtomicBool = std::sync::atomic::AtomicBool::new(false);
+
+struct WeakHashRestore(bool);
+
+impl Drop for WeakHashRestore {
+    fn drop(&mut self) {
+        WEAK_HASH_ON.store(self.0, std::sync::atomic::Ordering::SeqCst);
+        tracing_tunnel::verif::verif_set_weak_hash(self.0);
+    }
+}
+
 pub fn run_lines(lines: &[String], oracles: bool) -> RunResult {
+    let _weak_restore = WeakHashRestore(WEAK_HASH_ON.load(std::sync::atomic::Ordering::SeqCst));
     let mut rr = RunResult::default();
     let mut max_level = None;
     let mut sys = Sys::new(None);
@@ -156,6 +169,11 @@ pub fn run_lines(lines: &[String], oracles: bool) -> RunResult {
                 Some("filter") => {
                     max_level = t.num::<u8>();
                     sys = Sys::new(max_level);
+                }
+                Some("weakhash") => {
+                    WEAK_HASH_ON.store(true, std::sync::atomic::Ordering::SeqCst);
+                    tracing_tunnel::verif::verif_set_weak_hash(true);
+                    rr.out.tags.push("weakhash".into());
                 }
                 Some("base") => {
                     let k: usize = t.num().unwrap_or(1);
@@ -978,6 +996,13 @@ fn gen_unknown_site_after_restore(rng: &mut Rng) -> Vec<String> {
 /// ids and across receivers / restore cycles, each used once so that the metadata object shows.
 fn gen_c09(rng: &mut Rng) -> Vec<String> {
     let mut lines = vec![];
+    // half of the cases run with the arena's hash degraded to a constant (cfg hook): all
+    // descriptions share one bucket and `eq_metadata` alone keeps them apart; their descriptions
+    // carry a marker so that they never meet the ones interned under the real hash
+    let weak = rng.chance(1, 2);
+    if weak {
+        lines.push("host weakhash".into());
+    }
     let nf = *rng.pick(&[0usize, 3, 8, 64]);
     let base = gen::site(rng, Some(true), nf);
     let mut variants: Vec<Site> = vec![base.clone()];
@@ -992,6 +1017,11 @@ fn gen_c09(rng: &mut Rng) -> Vec<String> {
     let mut v = base.clone(); v.fields.push("extra".into()); variants.push(v);
     let mut v = base.clone(); if !v.fields.is_empty() { v.fields.reverse(); } else { v.fields.push(String::new()); } variants.push(v);
     let mut v = base.clone(); if let Some(f) = v.fields.first_mut() { f.push('_'); } else { v.target = "🦀".into(); } variants.push(v);
+    if weak {
+        for v in &mut variants {
+            v.target.push_str("::wk");
+        }
+    }
     let mut next_id = 100u64;
     let mut span = 0u64;
     lines.push("stats".into());
